@@ -246,7 +246,13 @@ func runC17(o *hx.Out, r *hx.Rand, thorough bool) {
 			if layers[i].s != nil {
 				si = mkStream(*layers[i].s)
 			}
-			w := grpchan.InterceptClientConn(ch, ui, si)
+			// both constructors (the older InterceptChannel is deprecated but exported, and documented as the same)
+			var w grpc.ClientConnInterface
+			if (it+i)%3 == 2 {
+				w = grpchan.InterceptChannel(ch, ui, si)
+			} else {
+				w = grpchan.InterceptClientConn(ch, ui, si)
+			}
 			// a sibling wrapper over the same channel, created afterwards and never called: it must
 			// not change what w does
 			sib := cscript{Tag: 99, Calls: 1, DReq: 500, DResp: 70000}
@@ -256,6 +262,7 @@ func runC17(o *hx.Out, r *hx.Rand, thorough bool) {
 				_, f2 := ch.(foreignWrapper)
 				if f1 != f2 || (!f1 && w != ch) {
 					identOK = false
+					w = ch // (whatever was returned instead is not used further)
 				}
 			} else {
 				wc, ok := w.(grpchan.WrappedClientConn)
